@@ -19,7 +19,8 @@ BUDGET = {'quick': 1200, 'thorough': 30000}
 TIME_LIMIT = {'quick': 50, 'thorough': 700}
 RULE = ('edit histories of 1-30 operations over up to 6 graph variables (SSA: copy/invert/+ create a new variable) '
         'and 7 plain node objects plus nested graphs (empty ones too): add_node, remove_node, add_dependency, '
-        'remove_dependency, merge, copy, invert, +, graft, flatten, transitive_reduction/closure, followed by every '
+        'remove_dependency, merge, copy, invert, +, graft, flatten, transitive_reduction/closure (12%: a nested graph of 0-3 nodes '
+        'with up to 4 dependees and 3 dependencies, grafted or flattened), followed by every '
         'query (nodes, dependencies direct/recursive, dependees, topological_sort, initial, terminal, depends, <=, ==); '
         '25% of the cases: one DAG on 4-6 nodes built in a random order, reduced / closed in place with queries before, between and after; thorough adds every digraph on <= 4 nodes x every single operation and query and every forward DAG on 5 nodes x reduction and closure; non-trivial = a graph with '
         '>= 3 nodes and >= 2 edges was edited by a removal, merge, inversion or graft; distinct = case hash')
@@ -281,9 +282,43 @@ def gen_dag(rng):
     return {'ops': ops, 'intnodes': rng.choice([None, None, 'id', 'rev', 'affine'])}
 
 
+def gen_graft(rng):
+    """a nested graph (0-3 nodes) standing in a graph with several dependees and several dependencies, grafted or
+    flattened: every dependee must end up after every node of the nested graph, which must end up after every dependency"""
+    ops = [['new', 0], ['new', 1]]
+    sub = list(range(10, 10 + rng.choice([0, 1, 2, 2, 3])))
+    for x in sub:
+        ops.append(['add_node', 1, x])
+    for a in range(len(sub)):
+        for b in range(a + 1, len(sub)):
+            if rng.random() < 0.4:
+                ops.append(['add_dep', 1, sub[a], sub[b]])
+    above = list(range(0, rng.choice([1, 2, 2, 3, 4])))          # depend on the nested graph
+    below = list(range(5, 5 + rng.choice([0, 1, 2, 2, 3])))      # the nested graph depends on them
+    wiring = [['add_dep', 0, x, NB + 1] for x in above] + [['add_dep', 0, NB + 1, y] for y in below]
+    rng.shuffle(wiring)
+    ops += wiring or [['add_node', 0, NB + 1]]
+    for x in above:
+        for y in below:
+            if rng.random() < 0.15:
+                ops.append(['add_dep', 0, x, y])
+    if rng.random() < 0.3:
+        ops.append(['copy', 0])
+    ops.append(['dump', 0])
+    ops.append(['graft', 0, NB + 1] if rng.random() < 0.5 else ['flatten', 0, rng.random() < 0.7])
+    ops.append(['dump', 0])
+    for x in above + below + sub:
+        ops += [['deps', 0, x], ['dependees', 0, x]]
+    ops += [['initial', 0], ['terminal', 0], ['topo', 0], ['dump', 1]]
+    return {'ops': ops}
+
+
 def gen(rng, tier, run):
-    if rng.random() < 0.25:
+    r = rng.random()
+    if r < 0.25:
         return gen_dag(rng)
+    if r < 0.37:
+        return gen_graft(rng)
     spec = Spec()
     ops = []
     nplain = rng.choice([2, 3, 4, 5, 7])
